@@ -179,6 +179,8 @@ func main() {
 		add("Slices.lean", c2, e2)
 		c3, e3 := passBytes(pkgs)
 		add("BytesProg.lean", c3, e3)
+		c4, e4 := passBuilders(pkgs)
+		add("BytesBuild.lean", c4, e4)
 	}
 	{
 		c, e := passCT(root)
